@@ -18,4 +18,9 @@ def descTable : String := "cbfebd4eaff63fd247cc0a76"
     that only `init` calls, and the caller-less caching `ResolveFields` under its own lock — nothing on the
     encode / size / decode paths -/
 def sharedWrites : List String := ["defs/resolver.go:ResolveFields writes fieldsCache", "reflect/append_list.go:registerListAppendFunc writes listAppendFuncs", "reflect/append_map.go:registerMapAppendFunc writes mapAppendFuncs", "reflect/desc.go:createStructDesc writes buildCached", "reflect/desc.go:createStructDesc writes buildLinked", "reflect/desc.go:fetchStructDesc writes buildLinked", "reflect/desc.go:newStructDescAndPrefetch writes buildCached", "reflect/desc.go:newStructDescAndPrefetch writes prefetchStructDescCache", "reflect/desc.go:rollbackBuild writes prefetchStructDescCache", "reflect/ttype.go:newTType writes ttypes"]
+/-- full normalised text of every function and package-level declaration of `internal/defs` /
+    `internal/reflect` (hooks aside) that none of the fingerprints above, no table translation and no
+    protocol fact looks at: the small predicates and helpers the model mirrors by hand -/
+def residualDefs : String := "2f863e8ac98e98063831115e"
+def residualReflect : String := "82e3c8dd9c9235ca4f17fb71"
 end Frugal.Skeleton
